@@ -12,6 +12,12 @@ theorem decode_encode (c : Consts) (hc : c.ok = true) (s : Image) (hwf : WF s) (
     decode c exp (encode c s ++ tail) = some (s, tail) :=
   decode_encode' (COk.of_ok hc) s hwf exp hseed tail
 
+/-- re-serialization of what was read gives the same bytes. -/
+theorem encode_decode (c : Consts) (hc : c.ok = true) (s : Image) (hwf : WF s) (exp : Nat)
+    (hseed : s.entries = [] ∨ s.seedHash = exp) (tail : Bytes) :
+    (decode c exp (encode c s ++ tail)).map (fun p => encode c p.1) = some (encode c s) := by
+  rw [decode_encode c hc s hwf exp hseed tail]; rfl
+
 /-- size = 16 + (8 if entries) + (8 + 8·num_values)·entries. -/
 theorem size_eq (c : Consts) (s : Image) (hwf : WF s) : (encode c s).length = serializedSize s :=
   length_encode c s (fun e he => (hwf.2.2.2.2.1 e he).2.1)
